@@ -11,8 +11,8 @@ pids=()
 for id in $IDS; do
   ( ./check $id --tier $TIER > out/logs/$id.$TIER.log 2>&1; echo "$id exit=$? $(grep -E '^(PASS|VIOLATION|UNDECIDED|KNOWN-FINDING)' out/logs/$id.$TIER.log | head -3 | cut -c1-160)" ) &
   pids+=($!)
-  # at most 3 checks at a time (each uses several cores)
-  while [ $(jobs -r | wc -l) -ge 3 ]; do sleep 2; done
+  # at most 2 checks at a time (each uses several cores and up to ~35 GB)
+  while [ $(jobs -r | wc -l) -ge 2 ]; do sleep 2; done
 done
 wait
 python3-vt - <<'PY'
